@@ -229,6 +229,43 @@ func registerStdlib(g *Engine) {
 	}
 	ic["crypto/subtle.XORBytes"] = xorBytes
 	ic["github.com/pion/transport/v4/utils/xor.XorBytes"] = xorBytes
+	// errors.As without reflection: walk the Unwrap chain for a value whose
+	// dynamic type is (or implements) the target's element type
+	ic["errors.As"] = func(e *Exec, fn *ssa.Function, a []Value) Value {
+		err := a[0].(IfaceVal)
+		tgt := a[1].(IfaceVal)
+		pt, ok := tgt.t.(*types.Pointer)
+		if !ok {
+			panic(e.panicEnd("errors.As: target must be a non-nil pointer"))
+		}
+		want := pt.Elem()
+		for depth := 0; err.t != nil && depth < 10; depth++ {
+			match := false
+			if it, isIface := want.Underlying().(*types.Interface); isIface {
+				match = types.Implements(err.t, it)
+			} else {
+				match = types.Identical(err.t, want)
+			}
+			if match {
+				if _, isIface := want.Underlying().(*types.Interface); isIface {
+					e.store(tgt.v.(PtrVal), err)
+				} else {
+					e.store(tgt.v.(PtrVal), err.v)
+				}
+				return e.tb.True()
+			}
+			m := e.findMethod(err.t, nil, "Unwrap")
+			if m == nil {
+				break
+			}
+			r, ok := e.call(m, []Value{err.v}, nil, e.curFrame).(IfaceVal)
+			if !ok {
+				break
+			}
+			err = r
+		}
+		return e.tb.False()
+	}
 	ic["errors.Is"] = func(e *Exec, fn *ssa.Function, a []Value) Value {
 		return e.tb.Bool(e.errorsIs(a[0].(IfaceVal), a[1].(IfaceVal), 0))
 	}
